@@ -260,7 +260,13 @@ def fit_record(vc, rid, case):
         cols = np.array([func(x, *np.eye(npar)[i]) for i in range(npar)]).T
         sw = 1.0 if wv is None else 1.0 / wv
         sol, *_ = np.linalg.lstsq(cols * (sw[:, None] if wv is not None else 1.0), y * sw, rcond=None)
-        rec["lindev"] = Qc(float(np.max(np.abs(p - sol) / (np.abs(sol) + 1e-3))), 1e9, 0, 2 * 10**9)
+        # the property speaks of INACTIVE bounds: the unconstrained solution itself must lie well inside them
+        # (with 3 noisy points it can leave the bounds although the generating parameters are inside)
+        inside = all(lo[i] + 1e-3 * (1 + abs(sol[i])) < sol[i] < hi[i] - 1e-3 * (1 + abs(sol[i])) for i in range(npar))
+        if inside:
+            rec["lindev"] = Qc(float(np.max(np.abs(p - sol) / (np.abs(sol) + 1e-3))), 1e9, 0, 2 * 10**9)
+        else:
+            rec["linear"] = False
     return rec
 
 
